@@ -408,28 +408,23 @@ def share_obligations(ctx: Context, module, rules: set, as_rule: str, only=None)
     returned" and C06's "invalid polygons are found over the full array")."""
     name = module.__name__
     cache = ctx.p.__dict__.setdefault('_rule_runs', {})
-    if name in _IN_PROGRESS:
-        # a cycle of adoptions (C10 adopts from C02, which adopts from C06, which adopts from C10):
-        # the inner run proceeds without the facts of the module that is already being evaluated
-        _SKIPS.append(name)
+    if getattr(ctx, 'no_adopt', False):
+        # an adopted module contributes its OWN rules only: adoption is one level deep, so there are
+        # no cycles and every module is evaluated at most once per program
         ctx.instances.setdefault(as_rule, 0)
         return 0
     if name in cache:
         sub = cache[name]
     else:
         sub = Context(ctx.p, ctx.prop, ctx.tier)
+        sub.no_adopt = True
         sub._flows, sub._cfgs, sub._types = ctx._flows, ctx._cfgs, ctx._types
-        before = len(_SKIPS)
-        _IN_PROGRESS.append(name)
         try:
             module.run(sub)
         except Exception as exc:
             if type(exc).__name__ != 'AbortRules':
                 raise
-        finally:
-            _IN_PROGRESS.pop()
-        if len(_SKIPS) == before:
-            cache[name] = sub
+        cache[name] = sub
     n = 0
     for ob in sub.obligations:
         if ob.rule in rules and (only is None or only(ob)):
@@ -774,3 +769,43 @@ def expand_locals(flow: Flow, expr: ast.AST, depth: int = 4) -> ast.AST:
                 setattr(new, field, [rec(x, d) if isinstance(x, ast.AST) else x for x in value])
         return new
     return rec(expr, depth)
+
+
+# --------------------------------------------------------------------------- foundations
+
+FOUNDATIONS = {
+    # group: (module name, rules or None for all, what the group establishes)
+    'geometry': [('c06', None), ('c02', {'R02.2', 'R02.3', 'R02.4', 'R02.5'})],
+    'order': [('c01', None), ('c03', {'R03.1', 'R03.2', 'R03.3'})],
+    'topology': [('c10', None)],
+    'masks': [('c07', None)],
+}
+FOUNDATION_TEXT = {
+    'geometry': "the polygon, centre and mask at position n are those of cell n (C06, C02)",
+    'order': "native and linear indexes, flattening and winding use the one order grid_dimensions[kind] (C01, C03)",
+    'topology': "the normalised mesh tables are the file's, whatever its encoding (C10)",
+    'masks': "clip masks select the intersecting cells plus the buffer, on every grid kind (C07)",
+}
+
+
+def adopt_foundations(ctx: Context, rule: str, groups: list[str], floor: int = 10) -> int:
+    """A property that is stated in terms of cells, polygons or mesh tables presupposes the facts other
+    properties establish about them: a change in that shared infrastructure breaks this property too.  The
+    obligations of those foundation groups are adopted under `rule` (own rules of the adopting property are
+    not duplicated: adoption goes through share_obligations, which is memoised and cycle safe)."""
+    import importlib
+    what = '; '.join(FOUNDATION_TEXT[g] for g in groups)
+    ctx.rule(rule, f"foundations this property rests on: {what}", floor=floor)
+    n = 0
+    own = f"emsverif.rules.{ctx.prop.lower()}"
+    for g in groups:
+        for modname, rules in FOUNDATIONS[g]:
+            full = f"emsverif.rules.{modname}"
+            if full == own:
+                continue
+            mod = importlib.import_module(full)
+            wanted = rules
+            if wanted is None:
+                wanted = {f"R{modname[1:]}.{k}" for k in range(1, 10)}
+            n += share_obligations(ctx, mod, wanted, rule)
+    return n
